@@ -4,6 +4,8 @@ import CifModel.Lemmas.ParseCBMirror
 import CifModel.Lemmas.ParseCBAllCont
 import CifModel.Lemmas.ParseCBPrune
 import CifModel.Lemmas.ParseCBFuel
+import CifModel.Lemmas.ParseCBCut
+import CifModel.Lemmas.ParseCBDup
 import CifModel.Spec.Traversal
 /-
   Property C15 — parse-time callbacks mirror the document and steer what is stored.
@@ -28,6 +30,18 @@ import CifModel.Spec.Traversal
     * C15_stored_is_structural — for skip-only programs the parse = the structural interpreter `kDoc` on the tree.
     * C15_skip_semantics_rest — for skip-only programs the store = `denoteP (prunedDoc p true d)`: the document with the
       bypassed sub-trees removed; C15_unfiltered_is_denote.
+    * C15_stored_is_structural_any, C15_stop_semantics_store — for EVERY program (END and error answers included): the parse
+      = the structural interpreter `xDoc`; the store = `denote (cutDoc p true d).kept`: the document with the bypassed
+      sub-trees removed AND cut at the stopping point (Spec/Traversal.lean part 4 says what stays of the construct in
+      progress; containers open at the stop keep their packet-less loops), the return value = `cutResult`: the stopping
+      answer if positive, else CIF_OK.  C15_cut_extends_pruned.
+  Duplicates under callbacks (model `parseCBD`, Model/ParseCBDup.lean: DUP_* diagnostics with an accepting error callback):
+    * C15_dup_all_continue_mirror — for every document in which block codes, frame codes and scalar data names may repeat
+      (any spelling that normalises alike; loop headers new to their container): with all-continue handlers the callbacks are
+      `dupEvents` and the store is `dupDenote` (Spec/TraversalDup.lean): a duplicate scalar gets its data-name callback and
+      the error callback but NO item handler and is not stored; a duplicate frame / block code gets the error callback and
+      the EXISTING frame / block is reopened — its handle goes to the start / end handlers, later names are checked against
+      and added to its content.
   Pinned variants of repaired defects: C15_cex_loop_start_pinned (F33).
   Not covered by theorems: layout (whitespace / comments) in the document-level theorems (`tokensOf` is layout-free; the
   token-sequence theorems above do cover layout), duplicate names (DUP_* diagnostics), error recovery (another property).
@@ -349,6 +363,57 @@ theorem C15_skip_semantics_rest (p : Prog) (hp : NoStop p) (d : Doc) (hw : wfDoc
   rw [C15_stored_is_structural p hp true d hw]
   exact ⟨kDoc_d p hp d hw, rfl⟩
 
+/-- **Reduction to the document tree, for EVERY program** (END and error answers included): for every well-formed document, in
+    both modes, what the parse returns, logs and stores is what the structural interpreter `xDoc` — the handler steps of
+    parser.c with the early exits of the productions, applied to the document tree, without tokens or fuel — returns, logs
+    and stores. -/
+theorem C15_stored_is_structural_any (p : Prog) (storing : Bool) (d : Doc) (hw : wfDoc d = true) :
+    parseCB p storing (tokensOf d)
+      = ((xDoc p storing d (St.init [])).2.1.log.reverse, (xDoc p storing d (St.init [])).1, (xDoc p storing d (St.init [])).2.2) := by
+  obtain ⟨h1, h2, h3⟩ := doc_x p storing d (fuelFor (tokensOf d)) hw (fuelFor_enough d)
+  unfold parseCB
+  rw [h1, h2, h3]
+
+/-- **Stop semantics of the store.**  For every well-formed document `d` and EVERY handler program `p` — any mixture of
+    CONTINUE, SKIP_CURRENT, SKIP_SIBLINGS, CIF_TRAVERSE_END and error codes, at any callbacks — the CIF stored by the parse of
+    `tokensOf d` is the plain denotation of `(cutDoc p true d).kept`: the document with the bypassed sub-trees removed (as in
+    `C15_skip_semantics_rest`) and cut at the first answer that is not one of the three directives.  Everything stored before
+    that answer stays, nothing after it is stored.  Of the construct in progress (Spec/Traversal.lean part 4): a scalar item
+    is not stored; a loop whose loop_start stopped is not created; a stop at packet_start, at an item of the packet or at
+    packet_end drops the open packet and leaves the loop with the packets recorded before (possibly none); a block / frame
+    whose start stopped exists, empty; a stop inside a block / frame leaves it with what it had; a stop at loop_end / frame_end
+    / block_end leaves the construct complete.  Packet-less loops are removed from a container when it is closed
+    (`stripL`, just before its end handler); the containers that are open at the stopping point keep theirs.
+    The return value is `cutResult`: the stopping answer if it is positive, CIF_OK if not (END); without a stop the answer
+    of cif_end if positive, else CIF_OK. -/
+theorem C15_stop_semantics_store (p : Prog) (d : Doc) (hw : wfDoc d = true) :
+    (parseCB p true (tokensOf d)).2.2 = denote (cutDoc p true d).kept
+    ∧ (parseCB p true (tokensOf d)).2.1 = cutResult p true (cutDoc p true d) := by
+  rw [C15_stored_is_structural_any p true d hw]
+  obtain ⟨h1, h2⟩ := xDoc_c p d hw
+  exact ⟨h2, h1⟩
+
+/-- the two descriptions agree where both apply: for a program that only continues or skips, the cut document denotes what
+    the pruned document denotes after the removal of packet-less loops -/
+theorem C15_cut_extends_pruned (p : Prog) (hp : NoStop p) (d : Doc) (hw : wfDoc d = true) :
+    denote (cutDoc p true d).kept = denoteP (prunedDoc p true d) := by
+  rw [← (C15_stop_semantics_store p d hw).1, (C15_skip_semantics_rest p hp d hw).1]
+
+/-- **Duplicates under callbacks — all-continue handlers, accepting error callback.**  For every normalisation `norm` and every
+    document `d` in which data block codes, save frame codes and scalar data names may repeat (in any spellings that `norm`
+    identifies; `okDoc`: values well-formed, loops rectangular with headers that are new to their container and repeat nothing),
+    the parse of `tokensOf d` by the model with the duplicate diagnostics returns CIF_OK, delivers exactly the callbacks
+    `dupEvents norm d` — the document in document order with the recovery of every duplicate: scalar: data-name callback,
+    error callback CIF_DUP_ITEMNAME, no item handler; frame / block: error callback CIF_DUP_FRAMECODE / CIF_DUP_BLOCKCODE,
+    then start … end of the EXISTING frame / block (its handle, i.e. its code in its first spelling) — and stores
+    `dupDenote norm d`: the reopened containers hold the union of their parts, a duplicate scalar is dropped (the first value
+    stays).  (The error callback is recorded as `errEv code`, see Model/ParseCBDup.lean.) -/
+theorem C15_dup_all_continue_mirror (norm : Str → Str) (d : Doc) (hw : okDoc norm d = true) :
+    parseCBD allContP norm true (tokensOf d) = (dupEvents norm d, OK, dupDenote norm d) := by
+  obtain ⟨h1, h2, h3⟩ := docD_allCont norm d (fuelFor (tokensOf d)) hw (fuelFor_enough d)
+  unfold parseCBD
+  rw [h1, h2, h3]
+
 /-- with all-continue handlers nothing is bypassed: the pruned document stores what the document denotes -/
 theorem C15_unfiltered_is_denote (d : Doc) (hw : wfDoc d = true) : denoteP (prunedDoc allContP true d) = denote d := by
   have h1 := (C15_skip_semantics_rest allContP allContP_noStop d hw).1
@@ -440,5 +505,33 @@ example : ((parseCB (fun k _ => if k = 5 then -2 else 0) false (tokensOf C15_dem
 -- END and a positive code at invocation 3 (frame_start): last callback, results 0 and 7
 example : (parseCB (fun k _ => if k = 3 then END else 0) true (tokensOf C15_demo)).2.1 = 0
     ∧ ((parseCB (fun k _ => if k = 3 then END else 0) true (tokensOf C15_demo)).1.filter Ev.isHandler).length = 4 := by decide +kernel
+
+-- stop semantics of the store, kernel-evaluated instances on the loop-heavy document (the theorem covers all of them):
+-- packet_start of the first loop answers SKIP_SIBLINGS (the loop is left without packets), then frame_start answers 7: the
+-- open block keeps the packet-less loop (scalar loop + loop = 2 loops, the frame exists, empty), result 7
+def C15_cutOK (p : Prog) (d : Doc) : Bool :=
+  C15_contsBeq (parseCB p true (tokensOf d)).2.2 (denote (cutDoc p true d).kept)
+    && decide ((parseCB p true (tokensOf d)).2.1 = cutResult p true (cutDoc p true d))
+example : C15_cutOK (C15_dev2 4 (-2) 5 7) C15_loopDoc = true := by decide +kernel
+example : (parseCB (C15_dev2 4 (-2) 5 7) true (tokensOf C15_loopDoc)).2.2.map (fun c => (c.frames.length, c.loops.length)) = [(1, 2)]
+    ∧ (parseCB (C15_dev2 4 (-2) 5 7) true (tokensOf C15_loopDoc)).2.1 = 7 := by decide +kernel
+-- the same skip without a stop: the block is closed, the packet-less loop is gone
+example : (parseCB (C15_dev1 4 (-2)) true (tokensOf C15_loopDoc)).2.2.map (fun c => (c.frames.length, c.loops.length)) = [(1, 1), (0, 1)] := by
+  decide +kernel
+-- END at an item inside a packet: the open packet is dropped, the loop keeps the packet recorded before; CIF_OK
+example : C15_cutOK (C15_dev1 9 END) C15_loopDoc = true := by decide +kernel
+
+-- duplicates under callbacks: a document with a repeated scalar (other spelling), a reopened frame and a reopened block
+def C15_lower (s : Str) : Str := s.map fun c => if 65 ≤ c ∧ c ≤ 90 then c + 32 else c
+def C15_dupDoc : Doc :=
+  [{ code := (a!"b"), body := [.item (a!"_s") (.chr false (a!"v")), .item (a!"_S") .na,
+      .frame (a!"f") [.item (a!"_t") .unk],
+      .frame (a!"F") [.item (a!"_t") .na, .item (a!"_u") .na]] },
+   { code := (a!"B"), body := [.item (a!"_s") .unk, .item (a!"_w") .na] }]
+example : okDoc C15_lower C15_dupDoc = true := by decide +kernel
+-- five error callbacks: _S, save_F, _t in the reopened frame, data_B, _s in the reopened block; one block, one frame stored
+example : ((dupEvents C15_lower C15_dupDoc).filter (fun e => match e with | .keyword (0 :: _) => true | _ => false)).length = 5
+    ∧ (dupDenote C15_lower C15_dupDoc).map (fun c => (c.code, c.frames.map (fun f => f.code))) = [((a!"b"), [(a!"f")])] := by
+  decide +kernel
 
 end CifModel
